@@ -86,7 +86,17 @@ func verifC06(native bool, nEntries int, integer bool) {
 	zz.ClockAuto(true)
 	before := zz.ClockRead()
 	views0, updates0 := zz.TxnCounts(env)
+	// the clock moves on just before the dump transaction is opened (an application
+	// transaction may have held the write lock until then)
+	var txnStart int64
+	VerifYield = func(point string) {
+		if point == "send-before-txn" {
+			zz.ClockStep()
+			txnStart = zz.ClockRead()
+		}
+	}
 	txnID, err := s.SendOnce(ctx, env)
+	VerifYield = nil
 	after := zz.ClockRead()
 	views1, updates1 := zz.TxnCounts(env)
 	zz.Assert(err == nil, "C06/sendonce/no-error")
@@ -115,6 +125,7 @@ func verifC06(native bool, nEntries int, integer bool) {
 	zz.Assert(msg.Meta.DatabaseName == "db" && msg.Meta.InstanceID == "inst", "C06/meta/names")
 	tsn := int64(msg.Meta.TimestampNano)
 	zz.Assert(zz.And(tsn >= before, tsn <= after), "C06/meta/time-taken-inside-the-call")
+	zz.Assert(tsn >= txnStart, "C06/meta/time-taken-after-the-transaction-began")
 	zz.Assert(msg.Meta.LmdbTxnID == int64(txnID), "C06/meta/txnid")
 	ni, err := snapshot.ParseName(name)
 	zz.Assert(err == nil, "C06/name/parses")
